@@ -86,7 +86,7 @@ def run(ctx):
   thorough = ctx.tier == 'thorough'
   rng = ctx.rng
   ctx.rule = ("Covariance: X on a 2^-4 grid incl. singular cases (duplicated / collinear columns, d = 1): Penrose equations of "
-              "M against the exact covariance on rationals. RCA: chunk layouts with unbalanced chunks and unchunked (-1) points, "
+              "M against the exact covariance on rationals. RCA: chunk layouts with unbalanced chunks, unchunked (-1) points and chunk ids with gaps, "
               "n_components in 1..d: L C_inner L^T = I_k on rationals with the exact within-chunk covariance; reduced case: rows "
               "span the directions with the smallest within/total variance ratio. LFDA: classes of unequal size (some smaller "
               "than k), k in 1..d-1 and beyond, three embedding types, n_components 1..d: rows are generalised eigenvectors of "
@@ -126,15 +126,19 @@ def run(ctx):
     X = fits.grid(X, 4)
     chunks = data['chunks']
     nchunks = int(chunks.max()) + 1
+    chunks_given = chunks
+    if rng.random() < 0.5:
+      chunks_given = fits.encode_labels(rng, data)['chunks']     # chunk ids are names: gaps are legal
+      ctx.hist('rca.chunk_ids', 'gapped')
     nc = [None] + list(range(1, d + 1))
     dim = nc[int(rng.integers(0, len(nc)))]
     ctx.count('rca_fits', 1)
     try:
       with warnings.catch_warnings():
         warnings.simplefilter('ignore')
-        e = RCA(n_components=dim).fit(X, chunks)
+        e = RCA(n_components=dim).fit(X, chunks_given)
     except Exception as ex:
-      ctx.fail_input('rca', 'RCA.fit raises %s' % type(ex).__name__, dict(X=X.tolist(), chunks=chunks.tolist(), n_components=dim),
+      ctx.fail_input('rca', 'RCA.fit raises %s' % type(ex).__name__, dict(X=X.tolist(), chunks=chunks_given.tolist(), n_components=dim),
                      observed=str(ex)[:200])
       continue
     L = np.asarray(e.components_)
@@ -142,7 +146,7 @@ def run(ctx):
       ctx.fail_input('rca', 'RCA(n_components<d): components_ is not a real array', dict(n_components=dim), observed=str(L.dtype))
       continue
     terms.append("(c09_rca %s %s %d%%nat %s)" % (gmat(X, qdy), gzlist(chunks), nchunks, gmat(L, qdy)))
-    recs.append(dict(kind='rca', X=X, chunks=chunks, L=L, dim=dim))
+    recs.append(dict(kind='rca', X=X, chunks=chunks_given, L=L, dim=dim))
     ctx.seen(('rca', X.tolist(), chunks.tolist(), dim), True)
     ctx.hist('rca.n_components', dim)
     if dim is not None and dim < d:
@@ -163,7 +167,7 @@ def run(ctx):
         Mimp = L.T.dot(L)
         if np.abs(Mref - Mimp).max() > 1e-6 * np.abs(Mref).max():
           ctx.fail_input('rca', 'reduced RCA does not retain the directions maximising total-to-within-chunk variance',
-                         dict(X=X.tolist(), chunks=chunks.tolist(), n_components=dim), observed=Mimp.tolist(), expected=Mref.tolist())
+                         dict(X=X.tolist(), chunks=chunks_given.tolist(), n_components=dim), observed=Mimp.tolist(), expected=Mref.tolist())
   # LFDA
   for i in range(40 if thorough else 9):
     ncls = int(rng.integers(2, 4))
